@@ -865,8 +865,7 @@ class Impl(object):
             ls = m["link_store"]
             derived_ok = (ls["nb_outlinks"] * 2 == ls["nb_links"] and
                           lt["ratio_fragmented_stems"] == lt["nb_fragmented_nodes"] / float(lt["nb_stems"]) and
-                          lt["page_block_density"] == lt["nb_pages"] / float(lt["nb_nodes"]) and
-                          0.0 <= lt["avg_stem_filling"] <= 1.0 + 1e-9 and 0.0 <= lt["avg_tail"] <= lt["max_tail"] + 1e-9)
+                          lt["page_block_density"] == lt["nb_pages"] / float(lt["nb_nodes"]))
             if not derived_ok:
                 return "ok metrics-derived-figures-inconsistent %r" % ({k: lt[k] for k in sorted(lt)},)
             o = lambda x: "none" if x is None else hx(x)  # noqa
